@@ -8,6 +8,7 @@ import Falcon.Model.Verify
 import Falcon.Model.Sampler
 import Falcon.Model.Zp
 import Falcon.Model.RingZ
+import Falcon.Model.KeygenSkel
 import Falcon.Spec.Codec
 /- dispatch of one line-protocol op to the model -/
 namespace Falcon.Driver
@@ -127,6 +128,40 @@ def execOp (chk : Bool) (tok : List String) : String :=
       let n := parseNat n; let f := parseInts f; let g := parseInts g
       if RingZ.ntruLhs n f g (parseInts cf) (parseInts cg) == RingZ.ntruLhs n f g (parseInts a) (parseInts b)
       then "same" else "differ"
+  | ["first_candidate", n, seed] =>
+      let sd := parseHex seed
+      let sd := sd ++ List.replicate (32 - sd.length) 0
+      renderRes (fun o => match o with
+        | none => "Exhausted"
+        | some (f, g) => renderInts f ++ " " ++ renderInts g) (KeygenSkel.firstCandidate chk (parseNat n) sd)
+  | ["key_check", n, f, g, cf, cg, h] =>
+      KeygenSkel.keyCheck (parseNat n) (parseInts f) (parseInts g) (parseInts cf) (parseInts cg) (parseNats h)
+  | ["sk_codec", n, f, g, cf, cg, hx] =>
+      -- encode (f, g, F) with the model and compare with the bytes the real to_bytes produced; decode them back
+      let n := parseNat n; let f := parseInts f; let g := parseInts g; let cf := parseInts cf; let cg := parseInts cg
+      let bytes := parseHex hx
+      match KeyCodec.skToBytes chk f g cf with
+      | .panic _ => "PANIC"
+      | .ok enc =>
+        if enc ≠ bytes then "encoding-differs"
+        else match KeyCodec.skFromBytes n bytes with
+          | .ok (.ok (f', g', cf')) =>
+            let bal (l : List Nat) : List Int := l.map fun (a : Nat) => if a > 6144 then (a : Int) - 12289 else (a : Int)
+            if bal f' ≠ f ∨ bal g' ≠ g ∨ bal cf' ≠ cf then "decoding-differs"
+            else
+              -- G recomputed as g·F/f mod q, centred
+              let d := Ntt.log2 n
+              match Zq.batchInv chk (Ntt.ntt d f') with
+              | .ok finv =>
+                match Ntt.intt d (Ntt.hadamard (Ntt.hadamard (Ntt.ntt d g') finv) (Ntt.ntt d cf')) with
+                | .ok cg' => if bal cg' = cg then "same" else "recomputed-G-differs"
+                | .panic _ => "PANIC"
+              | .panic _ => "PANIC"
+          | _ => "rejected"
+  | ["sk_fields", _, _, _, _] => "skip"
+  | ["keygen", _, _] => "skip"
+  | ["sk_roundtrip", _, _] => "skip"
+  | ["keygen_digest", _, _] => "skip"
   | _ => "bad-op"
 
 end Falcon.Driver
